@@ -491,3 +491,173 @@ def _vec_extend_any(m, args, ci):
             tgt.items.append(src.fields[0])
         return unit()
     raise Unsupported('extend from %r' % (src,))
+
+
+# ---- more iterator terminals ----------------------------------------------------------------------------
+def _extreme(m, it, key, want_max, label):
+    best = None
+    bk = None
+    while True:
+        x = it.next(m)
+        if x is None:
+            break
+        k = key(x)
+        if best is None:
+            best, bk = x, k
+            continue
+        # max keeps the last of equal elements, min the first (std semantics)
+        better = sym.ge(k, bk) if want_max else sym.lt(k, bk)
+        if _truth(m, better, label):
+            best, bk = x, k
+    return none() if best is None else some(best)
+
+@I.rx(r'^<.* as (Iterator|DoubleEndedIterator)>::(max|min|max_by_key|min_by_key)$|^(std|core)::iter::Iterator::(max|min|max_by_key|min_by_key)$', prio=1)
+def _iter_extreme(m, args, ci):
+    meth = ci.name.rsplit('::', 1)[1]
+    it = as_iter(m, args[0])
+    if meth in ('max', 'min'):
+        key = lambda x: deref_val(x) if isinstance(x, Ref) else x
+    else:
+        f = args[1]
+        key = lambda x: _call(m, f, [Ref(Cell(x), 'v')])
+    return _extreme(m, it, key, meth.startswith('max'), meth)
+
+@I.rx(r'^(core::slice::|std::slice::)?<impl \[.*\]>::(binary_search|binary_search_by_key|binary_search_by)$')
+def _slice_binary_search(m, args, ci):
+    """Specified behaviour only: on a slice sorted by the key, Ok(index of *a* match) or Err(insertion point).  The
+    implementation's probe sequence is followed (std's loop), so that an unsorted slice or duplicate keys give what std
+    gives."""
+    s, a, b = seq_of(args[0])
+    meth = ci.name.rsplit('::', 1)[1]
+    def cmp_at(i):
+        e = Ref(s, a + i)
+        if meth == 'binary_search':
+            k, t = deref_val(e), deref_val(args[1])
+        elif meth == 'binary_search_by_key':
+            k, t = _call(m, args[2], [e]), deref_val(args[1])
+        else:
+            o = _call(m, args[1], [e])
+            return o.variant
+        if _truth(m, sym.lt(k, t), 'bsearch<'):
+            return 'Less'
+        return 'Equal' if _truth(m, sym.eq(k, t), 'bsearch=') else 'Greater'
+    size = b - a
+    if size == 0:
+        return err(0)
+    base = 0
+    while size > 1:
+        half = size // 2
+        mid = base + half
+        if cmp_at(mid) != 'Greater':
+            base = mid
+        size -= half
+    c = cmp_at(base)
+    if c == 'Equal':
+        return ok(base)
+    return err(base + (1 if c == 'Less' else 0))
+
+# ---- HashSet as a list; membership decided by the solver ---------------------------------------------------
+class HSet:
+    def __init__(self):
+        self.items = []
+    def clone_hook(self, m):
+        h = HSet()
+        h.items = [clone_value(m, x) for x in self.items]
+        return h
+
+def _hs_has(m, hs, v):
+    for x in hs.items:
+        if _truth(m, value_eq(m, x, v), 'HashSet.eq'):
+            return True
+    return False
+
+@I.rx(r'(^|::)(HashSet|BTreeSet)::(new|with_capacity)$|^<(std::collections::)?(HashSet|BTreeSet) as Default>::default$')
+def _hs_new(m, args, ci):
+    return HSet()
+
+@I.rx(r'(^|::)(HashSet|BTreeSet)::insert$')
+def _hs_insert(m, args, ci):
+    hs = deref_val(args[0])
+    if _hs_has(m, hs, args[1]):
+        return False
+    hs.items.append(args[1])
+    return True
+
+@I.rx(r'(^|::)(HashSet|BTreeSet)::contains$')
+def _hs_contains(m, args, ci):
+    return _hs_has(m, deref_val(args[0]), deref_val(args[1]))
+
+@I.rx(r'(^|::)(HashSet|BTreeSet)::remove$')
+def _hs_remove(m, args, ci):
+    hs = deref_val(args[0])
+    v = deref_val(args[1])
+    for i, x in enumerate(hs.items):
+        if _truth(m, value_eq(m, x, v), 'HashSet.eq'):
+            del hs.items[i]
+            return True
+    return False
+
+@I.rx(r'(^|::)(HashSet|BTreeSet)::(len|is_empty)$')
+def _hs_len(m, args, ci):
+    hs = deref_val(args[0])
+    return len(hs.items) if ci.name.endswith('len') else len(hs.items) == 0
+
+# ---- ranges -------------------------------------------------------------------------------------------
+@I.rx(r'(^|::)RangeInclusive::new$')
+def _range_incl_new(m, args, ci):
+    return Adt('std::ops::RangeInclusive', None, {0: args[0], 1: args[1], 2: False}, ['start', 'end', 'exhausted'])
+
+@I.rx(r'(^|::)(RangeInclusive|Range|RangeFrom|RangeTo|RangeToInclusive)::contains$')
+def _range_contains(m, args, ci):
+    r = deref_val(args[0])
+    x = deref_val(args[1])
+    name = last_seg(r.ty)
+    f = r.fields
+    if name == 'RangeInclusive':
+        return sym.and_(sym.le(f[0], x), sym.le(x, f[1]))
+    if name == 'Range':
+        return sym.and_(sym.le(f[0], x), sym.lt(x, f[1]))
+    if name == 'RangeFrom':
+        return sym.le(f[0], x)
+    if name == 'RangeTo':
+        return sym.lt(x, f[0])
+    return sym.le(x, f[0])
+
+# ---- monotonic clocks -----------------------------------------------------------------------------------
+@I.rx(r'(^|::)(tokio::time::|std::time::)?Instant::now$')
+def _instant_now(m, args, ci):
+    if m.env is None or not hasattr(m.env, 'now_ns'):
+        raise Unsupported('Instant::now without an environment clock')
+    return Adt('Instant', None, {0: m.env.now_ns(m)})
+
+@I.rx(r'(^|::)Instant::elapsed$')
+def _instant_elapsed(m, args, ci):
+    a = deref_val(args[0]) if isinstance(args[0], Ref) else args[0]
+    now = m.env.now_ns(m)
+    d = sym.sub(now, a.fields[0])
+    return lib_std.dur(sym.ite(sym.lt(d, 0), 0, d))
+
+@I.rx(r'(^|::)Instant::(duration_since|saturating_duration_since)$')
+def _instant_since(m, args, ci):
+    a = deref_val(args[0]) if isinstance(args[0], Ref) else args[0]
+    b = deref_val(args[1]) if isinstance(args[1], Ref) else args[1]
+    d = sym.sub(a.fields[0], b.fields[0])
+    return lib_std.dur(sym.ite(sym.lt(d, 0), 0, d))
+
+@I.rx(r'(^|::)Instant::checked_duration_since$')
+def _instant_checked_since(m, args, ci):
+    a = deref_val(args[0]) if isinstance(args[0], Ref) else args[0]
+    b = deref_val(args[1]) if isinstance(args[1], Ref) else args[1]
+    if _truth(m, sym.lt(a.fields[0], b.fields[0]), 'Instant::checked_duration_since'):
+        return none()
+    return some(lib_std.dur(sym.sub(a.fields[0], b.fields[0])))
+
+@I.rx(r'^<(tokio::time::|std::time::)?Instant as (std::ops::|core::ops::)?(Add|Sub)>::(add|sub)$')
+def _instant_addsub(m, args, ci):
+    a = deref_val(args[0]) if isinstance(args[0], Ref) else args[0]
+    o = deref_val(args[1]) if isinstance(args[1], Ref) else args[1]
+    if isinstance(o, Adt) and last_seg(o.ty) == 'Instant':
+        d = sym.sub(a.fields[0], o.fields[0])
+        return lib_std.dur(sym.ite(sym.lt(d, 0), 0, d))
+    d = lib_std.dur_ns(o)
+    return Adt('Instant', None, {0: sym.add(a.fields[0], d) if ci.name.endswith('add') else sym.sub(a.fields[0], d)})
